@@ -80,6 +80,26 @@ def dates_for(b):
     return d
 
 
+def observe(b):
+    """read-only use of the model (while simulated values are switched on): display, explanations, export, copies of list links"""
+    from copy import copy as _copy
+    from efootprint.api_utils.system_to_json import system_to_json
+    for o in H.all_objects(b.system):
+        o = getattr(o, "_value", o)
+        str(o)
+        for k, v in list(o.__dict__.items()):
+            if isinstance(v, list) and hasattr(v, "modeling_obj_container"):
+                _copy(v); list(v)
+        for a in o.calculated_attributes:
+            v = getattr(o, a, None)
+            for x in (list(v.values()) if isinstance(v, dict) else [v]):
+                if hasattr(x, "explain"):
+                    try: x.explain()
+                    except Exception: pass
+    try: system_to_json(b.system, save_calculated_attributes=False)
+    except Exception: pass
+
+
 def _c05_case(args):
     tname, spec, cname, dname, toggles = args
     H.deterministic_ids(10)
@@ -109,7 +129,8 @@ def _c05_case(args):
         if not compare("after-creation"): return out
         if sim is not None:
             for t in toggles:
-                (sim.set_updated_values if t == "S" else sim.reset_values)()
+                if t == "O": observe(b)
+                else: (sim.set_updated_values if t == "S" else sim.reset_values)()
             if sim.updated_values_set: sim.reset_values()
             if not compare("after-toggles"): return out
     except Exception:
@@ -139,7 +160,7 @@ def run_c05(tier, seed, procs=16):
             if tier == "thorough": dnames += ("before-2h", "after-2h", "before-7h", "after-7h", "first@paris", "first@losangeles", "interior@kathmandu", "interior@losangeles")
             if tname.startswith("dst_"): dnames += tuple(f"hour{k}" for k in range(1, 9))
             for dname in dnames:
-                togs = ("", "SR", "SRSR") if dname in ("first", "interior") else ("",)
+                togs = ("", "SR", "SRSR", "SOR") if dname in ("first", "interior") else ("",)
                 if tier == "thorough" and dname == "interior": togs += ("SSRR", "RSRS")
                 for tg in togs: items.append((tname, spec, cname, dname, tg))
         for cname in failing_changes(None, spec):
